@@ -16,7 +16,7 @@ SPEC = {
         'PARTIAL: the theorems decide the detach LOGIC (copy or view per flow, as a function of ZeroCopy, InternString, transport and the attach state the driver reports) and the region discipline of later operations; that a Go slice really lives in the region the model says is a runtime fact of unsafe views (stringView/bytesView, reader buffers, free lists) and is tied by observation, not proved',
         'provenance model is hand written; tied on every run by (a) calling the real drivers\' DecodeBytes/DecodeStringAsBytes through the verif hook for every (format, transport, ZeroCopy, operation, length class) and comparing the reported attach state and the address range of the returned slice with C13.Model.produce, (b) pointer-range tests of every decoded string/[]byte/Raw/RawExt leaf against the input buffer compared with C13.Model.keep, (c) the behavioural oracle (decode on, Reset onto other streams, Reset, overwrite the whole input; re-compare snapshot and every leaf)',
         'history model: later operations write only the input (caller), the reader buffer and decoder scratch, and allocate new blocks; never an already allocated Fresh/Table block (this is what the behavioural oracle tests on the implementation)',
-        'flows covered: string destinations (kString, *string, fast-path elements/keys), kMap string keys, interface{} strings/bytes/symbols, []byte destinations (decodeBytesInto), RawExt.Data, Raw, binc symbol table entries, interned strings, interface{} []byte keys. Transient uses (struct field name lookup, BytesExt.ReadExt, UnmarshalBinary/Text/JSON arguments, MissingFielder names) are views by contract and are not kept values',
+        'flows covered: string destinations (kString, *string, fast-path elements/keys), kMap string keys, interface{} strings/bytes/symbols, []byte destinations (decodeBytesInto), RawExt.Data, Raw, binc symbol table entries, interned strings, interface{} []byte keys, values decoded by the side Decoder of a SelfExt extension. Transient uses (struct field name lookup, BytesExt.ReadExt, UnmarshalBinary/Text/JSON arguments, MissingFielder names) are views by contract and are not kept values',
         'default (unsafe, monomorphised) build; under codec.safe every string/[]byte conversion copies',
         'C13_pure is trivial in Gallina; its content is the enc stream: vh.Canon snapshot and string/[]byte header identity before and after Encode on real Encoders',
     ],
@@ -29,6 +29,6 @@ def main(chk):
 MANIFEST = {
     'category': 'proof',
     'technique': 'Coq proof (exhaustive vm_compute sweep of the finite detach-logic domain lifted by forallb_forall + induction over operation histories) on a provenance model + vm_compute correspondence against attach states and address ranges observed on the real drivers and decoded values + behavioural history oracle',
-    'text': 'PARTIAL. Theorems C13_owned / C13_owned_fresh (ZeroCopy off: every kept string/[]byte leaf is a fresh copy, or write-once table memory for interned strings and binc symbols, or static memory for empty values and json true/false), C13_zerocopy (never reader-buffer or scratch memory; an input view only with ZeroCopy on a bytes transport), C13_consumers (the generic layer is sound for any truthful attach state), C13_driver_att (each driver operation reports a truthful state), C13_raw, C13_stable (any later history leaves kept leaves unchanged; with ZeroCopy as long as the input is not overwritten), C13_unstable_elsewhere, C13_zerocopy_views hold over all 4 option vectors x 3 transports x 5 formats x 34 driver operations x 11 flows (and all 150 views for the consumers). The model is tied to the code by unit observations through the hook, pointer-range tests of decoded leaves and the behavioural oracle on all five formats x bytes/io (buffer 0,1,16,4096, three reader kinds) x ZeroCopy x InternString. Encode purity is checked on real Encoders (non-addressable values, pointer-receiver marshalers, canonical maps, StringToRaw, MapBySlice).',
+    'text': 'PARTIAL. Theorems C13_owned / C13_owned_fresh (ZeroCopy off: every kept string/[]byte leaf is a fresh copy, or write-once table memory for interned strings and binc symbols, or static memory for empty values and json true/false), C13_zerocopy (never reader-buffer or scratch memory; an input view only with ZeroCopy on a bytes transport), C13_consumers (the generic layer is sound for any truthful attach state), C13_driver_att (each driver operation reports a truthful state), C13_raw, C13_side_input (SelfExt side Decoder), C13_stable (any later history leaves kept leaves unchanged; with ZeroCopy as long as the input is not overwritten), C13_unstable_elsewhere, C13_zerocopy_views hold over all 4 option vectors x 3 transports x 5 formats x 34 driver operations x 11 flows (and all 150 views for the consumers). The model is tied to the code by unit observations through the hook, pointer-range tests of decoded leaves and the behavioural oracle on all five formats x bytes/io (buffer 0,1,16,4096, three reader kinds) x ZeroCopy x InternString. Encode purity is checked on real Encoders (non-addressable values, pointer-receiver marshalers and Selfer/MissingFielder, canonical maps, StringToRaw, MapBySlice).',
     'note': 'Partial because real aliasing is a runtime fact of unsafe views: the proof decides the detach logic, the tie observes the memory. Trusted: Coq kernel, the hand-written provenance model (correspondence-checked), Gen/Consts.v translator (dBytesAttach* order, internMaxStrLen), the harness address tests, Go toolchain/GC (no moving collector for heap objects).',
 }
